@@ -100,6 +100,8 @@ def roundtrips() -> Any:
         # the retry middleware's own control label given by the user in a type of its choice (the middleware reads it with int()):
         # it is a label like any other and keeps value and type on every delivery
         "max_retries": st.sampled_from([None, None, None, {"s": "9"}, {"f": struct.pack(">d", 9.0).hex()}, {"i": "9"}]),
+        # the worker's own `timeout` label (generous, never fires) as int / str / float: a label like any other, too
+        "timeout_label": st.sampled_from([None, None, None, {"i": "50"}, {"s": "50"}, {"s": "7.5"}, {"f": struct.pack(">d", 50.0).hex()}]),
         # a second call of the same task through the same broker / middleware instances, with labels of its own:
         # whatever one call carried must not show up in the other
         "second": st.one_of(st.none(), st.fixed_dictionaries({"extra": LABELS, "plan": st.lists(st.sampled_from(["retry", "requeue"]), max_size=2)})),
@@ -125,6 +127,8 @@ def run_roundtrip(c: Dict[str, Any]) -> Outcome:
     decl = {k: dec(v) for k, v in c["decl"].items()}
     if c.get("max_retries"):
         decl["max_retries"] = dec(c["max_retries"])
+    if c.get("timeout_label"):
+        decl["timeout"] = dec(c["timeout_label"])
     calls = [{"extra": {k: dec(v) for k, v in c["extra"].items()}, "plan": list(c["plan"])}]
     if c.get("second"):
         calls.append({"extra": {k: dec(v) for k, v in c["second"]["extra"].items()}, "plan": list(c["second"]["plan"])})
